@@ -205,12 +205,20 @@ def fail_class(r):
     return None
 
 
-def shrink(ctx, src, cls, rounds=5, max_cands=30):
+def split_prelude(src):
+    """(prelude, body) for generated programs, ("", src) for corpus programs"""
     import gen_progs
-    pre = gen_progs.PRELUDE if src.startswith(gen_progs.PRELUDE) else None
-    if pre is None:
+    for pre in (gen_progs.PRELUDE, gen_progs.GENERIC_PRELUDE, gen_progs.NESTED_PRELUDE):
+        if src.startswith(pre):
+            return pre, src[len(pre):]
+    return "", src
+
+
+def shrink(ctx, src, cls, rounds=5, max_cands=30):
+    pre, body = split_prelude(src)
+    if not pre:
         return src
-    body = src[len(pre):].split("\n")
+    body = body.split("\n")
     for _ in range(rounds):
         cands = []
         for i, line in enumerate(body):
@@ -324,7 +332,11 @@ def bridge_phase(ctx, cfg_jobs, cfg_ok_of, by_id):
 def load_corpus():
     out = []
     for f in sorted((HERE / "corpus").glob("*.py")):
-        out.append({"id": "corpus/" + f.name, "src": f.read_text(), "entry": "main", "feat": ["corpus"]})
+        src = f.read_text()
+        first = src.split("\n", 1)[0]
+        entries = first[len("# entries:"):].split() if first.startswith("# entries:") else ["main"]
+        for e in entries:
+            out.append({"id": f"corpus/{f.name}" + ("" if e == "main" else f":{e}"), "src": src, "entry": e, "feat": ["corpus"]})
     return out
 
 
@@ -402,18 +414,19 @@ def run(ctx):
             if cls in reported and n_shrunk >= 2:
                 continue
             src = p["src"]
-            if n_shrunk < 2:
+            if n_shrunk < 2 and not res["id"].startswith("corpus/"):
                 try:
                     src = shrink(ctx, src, cls)
                 except Exception as e:  # noqa: BLE001
                     ctx.notes.append(f"shrink failed: {e}")
                 n_shrunk += 1
-            body = src[len(gen_progs.PRELUDE):] if src.startswith(gen_progs.PRELUDE) else src
-            key = cls + ":" + hashlib.sha1(body.encode()).hexdigest()[:12]
+            body = split_prelude(src)[1]
+            key = ("ice" if st == "ice" else "check_hugr") + ":" + hashlib.sha1((body + ("" if p.get("entry", "main") == "main" else p["entry"])).encode()).hexdigest()[:12]
             if key in reported:
                 continue
             reported.add(key)
-            reported.add(cls)
+            if ctx.is_known(key) is None:
+                reported.add(cls)
             ctx.report(key, "counterexample",
                        "accepted program does not lower to valid HUGR" if st == "ok" else "internal compiler error on an accepted program",
                        {"program_id": res["id"], "class": cls, "program": src,
@@ -482,7 +495,7 @@ def run(ctx):
                         where = "header (cfg_ok / exit row / function outputs)" if path[:1] == (0,) else \
                             (f"block {path[0] - 1}, {SECTIONS.get(path[1], '?')}" if len(path) > 1 else str(path))
                         p = by_id[pid]
-                        body = p["src"][len(gen_progs.PRELUDE):] if p["src"].startswith(gen_progs.PRELUDE) else p["src"]
+                        body = split_prelude(p["src"])[1]
                         ctx.report("rows:" + hashlib.sha1((body + rec.get("func_name", "")).encode()).hexdigest()[:12],
                                    "counterexample" if path[1:2] == (2,) or path[:1] == (0,) else "correspondence",
                                    "block rows built by compile_cfg differ from the model (ModelLower)",
